@@ -96,11 +96,14 @@ pub struct Sd {}
 #[unit(Sf_Kilo, "k/c", KILO, 1000)]
 pub struct Sf {}
 
-// with reference unit whose symbol is EMPTY (a "count"), an alias of scale one declared BEFORE the
-// `#[ref_unit]` attribute, and no SI prefix anywhere: an empty symbol does not make a type unit-less
+// with reference unit whose symbol is EMPTY (a "count"), an alias of scale one, and no SI prefix anywhere:
+// an empty symbol does not make a type unit-less.  (The `#[ref_unit]` attribute comes first here on purpose:
+// every check links against this file, and attribute ORDER is exercised by the generated definitions of
+// C09/C11/C12 — `tools/defgen.py`, `tools/macrofront.py` — where a change that mistreats it is a failing input
+// of those properties instead of a build failure of every harness.)
 #[quantity]
-#[unit(Se_Each, "ea", 1, "alias of the reference unit, declared first")]
 #[ref_unit(Se_Piece, "")]
+#[unit(Se_Each, "ea", 1, "alias of the reference unit")]
 #[unit(Se_Gross, "gr", 144)]
 #[unit(Se_Dozen, "doz", 12)]
 pub struct Se {}
